@@ -12,11 +12,11 @@ ID = 'C03'
 LEVEL = 'fault_enumeration'
 RULE = ('Programs (free grammar, groups weighted up, nesting in sequences/subtests/branches/other groups incl. setup/main/'
         'teardown of other groups) x how main ends {normal, exception, STOP, timeout, failed subtest, nested-group failure, '
-        'terminal earlier teardown node}; plus all small trees (k<=3 leaves) that contain a group.  Oracle = invariants over '
+        'terminal earlier teardown node}; plus all small trees (k<=3 leaves) that contain a group, and small trees placed into group/subtest contexts.  Oracle = invariants over '
         'the body/plug event log, no model of the executor: (1) group whose setup phases all completed non-terminally and whose '
         'subtest had not failed -> every direct teardown phase ran exactly once, after every main body of the group, before any '
         'body following the group and before the first plug tearDown; (2) a terminal setup phase -> no main/teardown body of '
-        'that group; (3) a terminal teardown phase -> the following siblings of the group (in an abortable context) do not run.  '
+        'that group; (3) a terminal teardown phase -> no node following the group, or following any enclosing sequence/branch/subtest/group up to an enclosing teardown, runs.  '
         'Non-trivial = an entered group whose main ended abnormally (terminal or FAIL_SUBTEST record inside main, or terminal '
         'teardown node); distinct by canonical AST.')
 ASSUMPTIONS = [
@@ -54,6 +54,10 @@ def phase_terminal(p, recs, sof):
   return False
 
 
+def parent_kind(node):
+  return node.get('t', '?')
+
+
 def check(prog):
   r = CaseResult()
   x = spec.expect(prog)
@@ -85,13 +89,13 @@ def check(prog):
   # parent lists for sibling lookup
   parents = {}
 
-  def index_parents(lst, part_in_td):
+  def index_parents(lst, part_in_td, parent):
     for k, n in enumerate(lst):
-      parents[id(n)] = (lst, k, part_in_td)
+      parents[id(n)] = (lst, k, part_in_td, parent)
       for part, sub in progs.children_lists(n):
-        index_parents(sub, part_in_td or part == 'td')
+        index_parents(sub, part_in_td or part == 'td', n)
 
-  index_parents(prog['nodes'], False)
+  index_parents(prog['nodes'], False, None)
   ngroups = 0
   for g, c in progs.walk(prog['nodes']):
     if g['t'] != 'group':
@@ -172,13 +176,21 @@ def check(prog):
         r.bad('C03/teardown-after-plug-teardown', 'group g%d: teardown p%d ran after plug tearDown' % (g['id'], pid))
     # (3) terminal teardown node propagates outward
     if td_terminal:
-      lst, k, parent_in_td = parents[id(g)]
-      if not parent_in_td and not c['in_td']:
+      # ... through every enclosing sequence, branch, subtest and group, up to the test or to an enclosing teardown
+      # (whose remaining nodes still run)
+      node, level = g, 0
+      while node is not None:
+        lst, k, parent_in_td, parent = parents[id(node)]
+        if parent_in_td or c['in_td']:
+          break
         sib = pids_under(lst[k + 1:])
         ran = [p for p in sib if p in first_idx]
         if ran:
-          r.bad('C03/terminal-teardown-not-propagated', 'group g%d: teardown phase(s) %r terminal but following siblings %r ran' % (
-              g['id'], td_terminal, ran))
+          r.bad('C03/terminal-teardown-not-propagated' + ('' if level == 0 else '/outer'),
+                'group g%d: teardown phase(s) %r terminal but nodes %r following %s ran' % (
+                    g['id'], td_terminal, ran, 'the group' if level == 0 else 'its enclosing %s (level %d)' % (parent_kind(node), level)))
+          break
+        node, level = parent, level + 1
   r.classes = sorted(classes) + ['groups:%d' % min(ngroups, 4)]
   r.nontrivial = bool({'nt:main-ended-abnormally', 'nt:terminal-teardown-node'} & classes)
   return r
@@ -208,6 +220,12 @@ def plan(tier, seed):
     for s in which:
       jobs.append({'kind': 'enum', 'name': 'enum%d.%d.%d' % (k, md, s), 'k': k, 'maxdepth': md, 'shard': s, 'nshards': nsh,
                    'complete': run == 'all'})
+  # every small tree placed into every context that contains a group (teardown of a failed-subtest group, ...)
+  ctx_spaces = [(1, 2, 1, 'all'), (2, 1, 64, 16)] if tier == 'quick' else [(1, 2, 1, 'all'), (2, 1, 16, 'all'), (2, 2, 512, 32)]
+  for k, md, nsh, run in ctx_spaces:
+    which = range(nsh) if run == 'all' else [(seed * run + s) % nsh for s in range(run)]
+    for s in which:
+      jobs.append({'kind': 'ctx', 'name': 'ctx%d.%d.%d' % (k, md, s), 'k': k, 'maxdepth': md, 'shard': s, 'nshards': nsh, 'complete': run == 'all'})
   # the "single operator abort arriving at any moment" clause: an abort injected at every yield point of scheduled runs
   # of the group templates (engine and event-log invariants of C04; only the teardown clauses are attributed to C03)
   for t in ABORT_TEMPLATES:
@@ -245,6 +263,19 @@ def run_job(job, acct):
   elif job['kind'] == 'hyp':
     strat = progs.programs(strict=False, with_test_start=False, cfg=CFG).map(with_plug)
     hyp.search(acct, strat, check, seed=job['hseed'], max_examples=job['n'], known=known)
+  elif job['kind'] == 'ctx':
+    for i, (cname, prog) in enumerate(progs.enumerate_in_contexts(job['k'], job['maxdepth'])):
+      if i % job['nshards'] != job['shard']:
+        continue
+      if not any(n['t'] == 'group' for n, _ in progs.walk(prog['nodes'])):
+        continue
+      prog = with_plug(prog)
+      r = check(prog)
+      acct.case(prog, r.nontrivial, r.classes + ['ctx:' + cname])
+      for sig, detail in r.violations:
+        (acct.known if sig in known else acct.violation)(sig, prog, detail)
+    if job['shard'] == 0 and job['complete']:
+      acct.exhaustive_parts.append('all trees with k=%d leaves (depth<=%d) placed into each context that has a group' % (job['k'], job['maxdepth']))
   elif job['kind'] == 'enum':
     for i, prog in enumerate(progs.enumerate_programs(job['k'], job['maxdepth'])):
       if i % job['nshards'] != job['shard']:
